@@ -33,6 +33,9 @@ func rulesC02(c *Ctx) {
 	ruleOptionProbes(c, "rib", 4)    // the switches of the resolvability gate and of forward references
 	ruleOptionProbes(c, "server", 5) // … and the server options that set them
 	ruleServerWiring(c, []string{"DisableRIBCheckFn", "WithNoRIBForwardReferences"})
+	ruleRIBWiring(c)
+	// a held operation that became resolvable is answered: the RIB's results reach the response unfiltered (shared with C01/C06)
+	ruleResultMapping(c)
 }
 
 // optionAppends lists the option constructors appended to the slice passed to NewRIBHolder in fn.
@@ -373,9 +376,10 @@ func ruleCanResolve(c *Ctx) {
 		if !ok || !isMethod(calleeObj(info, call), ribPkg, "RIB", "NetworkInstanceRIB") || len(call.Args) != 1 {
 			return true
 		}
-		if objOfIdent(info, call.Args[0]) == netInst {
-			if se, ok := ast.Unparen(call.Fun).(*ast.SelectorExpr); ok && objOfIdent(info, se.X) == recv {
-				ownRIB = objOfIdent(info, as.Lhs[0])
+		// (through the parameter bindings and results of spliced-in helpers)
+		if frameArgRoot(info, fi.Decl, objOfIdent(info, call.Args[0])) == netInst {
+			if se, ok := ast.Unparen(call.Fun).(*ast.SelectorExpr); ok && frameArgRoot(info, fi.Decl, objOfIdent(info, se.X)) == recv {
+				ownRIB = frameResultTarget(info, fi.Decl, objOfIdent(info, as.Lhs[0]))
 			}
 		}
 		return true
